@@ -10,6 +10,9 @@ HERE = os.path.dirname(os.path.dirname(os.path.abspath(__file__)))
 BEGIN, END = '<!-- SEEDED-BEGIN -->', '<!-- SEEDED-END -->'
 
 OUT_OF_SCOPE = {
+    'K03-2': 'not a violation of the statement: it shows only for a range whose two corners are the SAME cell written with different $ markers '
+             '(A1:$A$1): the written corners change places, but of one cell neither spelling is the top-left rather than the bottom-right one - '
+             '`c10.ranges` demands the written corners only where exactly one of row and column ties',
     'I07-1': 'not a violation of the statement: PV reads a float rate as the decimal it is written as; the result moves by a relative 6e-15 '
              'at 1000 periods (tens of units in the last place where the future value dominates), which a formula evaluated in doubles '
              'also shows - "to within floating-point rounding" is held at 1e-12 of the terms by `c16.pv` on purpose, and at 16 units in '
